@@ -257,7 +257,7 @@ type EvalCtx struct {
 	params []Value
 }
 
-var specPreds = map[string]Sort{"itemsEq": SBool, "iriEq": SBool, "eqfold": SBool}
+var specPreds = map[string]Sort{"itemsEq": SBool, "iriEq": SBool, "eqfold": SBool, "cleanRec": SItem}
 
 func (c *EvalCtx) lookup(name string) (Value, bool) {
 	if t, ok := c.bound[name]; ok {
@@ -503,9 +503,15 @@ func (c *EvalCtx) eq(a, b Value) *Term {
 		if y, ok := b.(*IfaceVal); ok {
 			return Eq(c.ex.abstractItem(x), c.ex.abstractItem(y))
 		}
+		if y, ok := b.(*Term); ok && y.S == SItem {
+			return Eq(c.ex.abstractItem(x), y)
+		}
 	case *Term:
 		if y, ok := b.(*Term); ok {
 			return Eq(x, y)
+		}
+		if y, ok := b.(*IfaceVal); ok && x.S == SItem {
+			return Eq(x, c.ex.abstractItem(y))
 		}
 	}
 	return c.ex.valueEq(a, b)
